@@ -1192,6 +1192,12 @@ func signCase(r *Rng, kp *keyPair, td tdef, idx int) {
 		g4, s4 := cg()
 		g4.Signature = ""
 		alter("signature-empty", kp.k, kp.owner, rs, g4, s4)
+		// every other length of the field: octets appended, prepended, cut (keys_siglen.go)
+		emitN := 0
+		if idx%3 == 1 {
+			emitN = 3
+		}
+		sigLenCase(r, kp, g, sf, rs, emitN)
 	}
 	{ // DNSKEY: zone flag, protocol, other flag bits, public key bit (with and without matching key tag)
 		k2 := dns.Copy(kp.k).(*dns.DNSKEY)
@@ -1486,10 +1492,13 @@ func runC10(r *Rng, tier string, n int) {
 			}
 			sb, _ := base64.StdEncoding.DecodeString(g.Signature)
 			st["ecdsa_width_checked"]++
+			sf := sigFOf(g, owner, kp.owner)
 			if len(sb) == 2*il && (sb[0] == 0 || sb[il] == 0) {
 				short++
+				sigLenCase(r, kp, g, sf, []*rec{x}, 0) // r or s with a leading zero octet: also the stripped forms
+			} else if i%50 == 7 {
+				sigLenCase(r, kp, g, sf, []*rec{x}, 0)
 			}
-			sf := sigFOf(g, owner, kp.owner)
 			body, _ := refCanon(sf, []*rec{x}, rfcLower)
 			if len(sb) != 2*il || !cryptoVerify(a, kp.pub, append(refSigPrefix(sf), body...), sb) || g.Verify(kp.k, []dns.RR{x.rr}) != nil {
 				Viol("C10/Sign/ecdsa-signature-width", fmt.Sprintf("ECDSA signature of %d octets (expected r | s of %d) or not verifiable", len(sb), 2*il), mkIn(kp, g, sf, []*rec{x}, ""))
@@ -1552,6 +1561,8 @@ func runC10(r *Rng, tier string, n int) {
 	}
 	// one-octet name pairs in every name comparison of Verify; RRSIG / RRset / DNSKEY values used for several calls
 	runRound4(r, tier, keys)
+	// keys with one (owner, algorithm, key tag) and different material used in sequences of Verify calls
+	runRound5(r, tier, keys)
 	for t := uint16(0); t < 70; t++ {
 		Emit("lowered", []string{Itoa(int(t))}, Btoa(codeLower[t]))
 	}
